@@ -3,7 +3,7 @@ from vf.driver import contract_units
 
 LEVEL = "other"
 MODULES = ["contracts.c_secretfactory", "contracts.c_access", "contracts.c_engine", "contracts.c_request", "contracts.c_attributes",
-           "contracts.c_factory", "contracts.c_sqltypes"]
+           "contracts.c_factory", "contracts.c_sqltypes", "contracts.c_template"]
 EXPLANATION = ("The engine-side hops are under contract: the conversion of a registered core secret into the "
                "stored object carries value bytes, algorithm, length, key format and the type-specific field "
                "over unchanged (ObjectFactory.convert, core -> pie); Get builds the returned secret from exactly "
@@ -27,7 +27,7 @@ ASSUMPTIONS = ["SQLAlchemy stores and returns column values unchanged except thr
 def OBLIGATION_FILTER(name):
     keep = ('trace.returns-what', 'trace.get-never-writes', 'trace.stored-fields', 'trace.attribute-reported',
             'post.column-value', 'bounded:', 'raises.', 'trace.reads-only', '/exploration', '/fragment', '/extract',
-            'trace.new-rows-only', 'trace.key-specific', 'post.')
+            'trace.new-rows-only', 'trace.key-specific', 'trace.instances-keep', 'post.')
     return any(k in name for k in keep)
 
 
